@@ -274,7 +274,22 @@ def step' (d : DState) (line : String) : DState × String :=
     match splitArrow rest with
     | none => (d, "bad-op")
     | some (ins, impl) =>
-      if op == "C07.str" then
+      if op == "C07.fold" then
+        match ins with
+        | [ax, bx] =>
+          match hexDecode ax, hexDecode bx with
+          | some a, some b =>
+            let modelObs := [if equalFold a b then "1" else "0", if containsFold a b then "1" else "0"]
+            -- the spec's relation, on what the IMPLEMENTATION answered
+            let want := if containsSpec a b then "1" else "0"
+            let spec := match impl with
+              | [_, c] => if c == want then none else some "C07.contains-fold"
+              | _ => some "C07.answer-unreadable"
+            let cls := "fold:" ++ (if equalFold a b then "eq" else if containsFold a b then "sub" else "no")
+            (d, verdict (modelObs == impl) spec (joinWith "\t" (cls :: modelObs)))
+          | _, _ => (d, "bad-op")
+        | _ => (d, "bad-op")
+      else if op == "C07.str" then
         match ins, impl with
         | [sx], [encx, rawx, rt] =>
           match hexDecode sx, hexDecode encx with
